@@ -10,7 +10,7 @@ From Coq Require Import List NArith Arith Bool String.
 From BS Require Import Base.Sexp Base.Types Base.Lit Base.Reader Gen.Tables Gen.Entities Gen.Stdlib Gen.T_C04
                        Model.Attrs Model.Heap Model.Edit Model.Build Model.Adapter Spec.Tree Spec.BuildSpec Spec.DocSpec
                        Proofs.EditRep Proofs.AdapterProofs Proofs.AdapterCompose
-                       Model.Tokenizer Model.TokParse Spec.DocWrite Proofs.TokenizerBridge Proofs.TokenizerSpell.
+                       Model.Tokenizer Model.TokParse Spec.DocWrite Proofs.TokenizerBridge Proofs.TokenizerSpell Proofs.TokenizerWider.
 Import ListNotations.
 Open Scope N_scope.
 
@@ -123,14 +123,15 @@ Print Assumptions C04_document_well_linked.
    pattern / source fingerprints proved in Props/C18.v); [callbacks unesc text] is the callback stream it fires,
    [parse_string] = tokenizer, adapter, tree construction.  [write doc] writes a document of Spec.DocSpec token by token
    (Spec/DocWrite.v); [simple_doc] is the sub-grammar covered: elements, void elements in all three spellings and
-   self-closed elements with lower-case names, script / style elements with raw text free of '<' (the tokenizer's
-   CDATA_CONTENT_ELEMENTS mode), any number of attributes with lower-case names
-   written as a bare name or name=DQ value DQ (DQ the double quote; value without DQ and without '&'; repeated names
-   allowed), non-empty text without '<' and '&' (no two pieces of text adjacent), references written with ';', comments
-   without '-', processing instructions and DOCTYPE / doctype declarations without '>', CDATA[ / cdata[ sections without ']'.
+   self-closed elements with names [a-z][a-z0-9-.:_]*, script / style elements with raw text free of '<' (the tokenizer's
+   CDATA_CONTENT_ELEMENTS mode), any number of attributes with names [a-z_:][a-z0-9-.:_]* separated by single blanks,
+   written as a bare name or name=Q value Q where Q is the double quote, or the single quote when the value contains a
+   double quote (value without '&' and not containing both quotes; repeated names allowed), non-empty text without '<' and
+   '&' (no two pieces of text adjacent), references written with ';', comments without '--', processing instructions
+   and DOCTYPE / doctype declarations without '>', CDATA[ / cdata[ sections without ']'.
    [unesc] stands for html.unescape; the only thing assumed of it: it returns a string without '&' unchanged.
    PARTIAL: attribute values containing references or quoted otherwise, upper-case names, raw text containing '<', other
-   marked sections, comments containing '-' and malformed text are not covered by these two theorems (they are covered
+   marked sections, comments containing '--', unquoted values, blanks inside tags and malformed text are not covered by these two theorems (they are covered
    by correspondence). *)
 
 (* the tokenizer fires exactly the ideal callbacks for the written text, rejects nothing, leaves nothing unconsumed *)
@@ -180,6 +181,22 @@ Theorem C04_rendered_tags_are_tokens : forall unesc n a, name_ok n -> quoted_att
   tok_ok unesc (WCons (Reparse.spell (Reparse.TClose n)) [TEnd n]).
 Proof. exact rendered_tag_tokens. Qed.
 Print Assumptions C04_rendered_tags_are_tokens.
+
+(* The WIDER sub-grammar [wider_doc]: as [simple_doc], but attribute values may contain references (anything that does not
+   contain both kinds of quote), also on script / style elements.  What stands between the quotes is the value
+   as WRITTEN; the text stands for [udoc unesc doc], the document whose attribute values are html.unescape of the written
+   ones.  Nothing at all is assumed of html.unescape. *)
+Theorem C04_tokenizer_written_wider_partial : forall unesc doc, wider_doc doc = true ->
+  exists its g, tokenize unesc (write doc) = (its, g) /\ flat_map it_evs its = tevs_of (udoc unesc doc) /\
+                gs_status g = Running /\ gs_rest g = [] /\ gs_cd g = None.
+Proof. exact tokenize_wider. Qed.
+Print Assumptions C04_tokenizer_written_wider_partial.
+Theorem C04_string_tree_wider_partial : forall unesc cfg doc, wider_doc doc = true -> wf_doc cfg (udoc unesc doc) = true ->
+  rejected unesc (write doc) = false /\
+  spec_run (a_b cfg) (adapted cfg (callbacks unesc (write doc))) = flat (a_b cfg) (expect cfg (udoc unesc doc)) /\
+  heap_is (parse_string cfg unesc (write doc)) (flat (a_b cfg) (expect cfg (udoc unesc doc))).
+Proof. exact wider_string_tree. Qed.
+Print Assumptions C04_string_tree_wider_partial.
 
 Example C04_simple_example : simple_doc simple_example = true /\ wf_doc html_cfg simple_example = true.
 Proof. exact simple_example_ok. Qed.
